@@ -722,11 +722,15 @@ func (x *runner) caseErr(redirect, shapeName, rtype, rmode string, full bool, et
 func main() {
 	cfg := drv.Parse()
 	r := drv.NewRand(cfg.Seed)
-	w := emit.NewWriter(cfg.Out, "C11_spec", 0, cfg.Only)
-	n := cfg.Count(640, 16000)
+	shard := 0 // quick: 16 shards
+	if !cfg.Quick {
+		shard = 250 // keeps one coqc process below ~1 GB
+	}
+	w := emit.NewWriter(cfg.Out, "C11_spec", shard, cfg.Only)
+	n := cfg.Count(640, 9600)
 	g := &gen{r: r, long: 150}
 	if !cfg.Quick {
-		g.long = 1500
+		g.long = 600
 	}
 	x := &runner{g: g, w: w, enc: oidc.NewEncoder(), log: slog.New(slog.NewTextHandler(io.Discard, nil))}
 
